@@ -1,7 +1,7 @@
 (* Property C09 — inserting or removing markup never alters the paragraph text around it.
    Statements only; each is closed by [exact] of a lemma proved in TreeProof*.v.  Model: Tree.v (event list + tree). *)
 From Coq Require Import List ZArith Bool. Import ListNotations.
-Require Import WS WSnfproof Tree TreeNF TreeProof TreeProof2 TreeProof3 TreeProof5 TreeProof9.
+Require Import WS WSnfproof Tree TreeNF TreeProof TreeProof2 TreeProof3 TreeProof5 TreeProof9 TreeProof10 TreeProof11 TreeProof12.
 
 (* ---- insertion: set_span / set_link by offset and length (offset >= 0: the repaired code raises on negative ones) *)
 Theorem C09_insert_preserves_offset : forall k a off len evs, plain_kind k = true -> (0 <= off)%Z ->
@@ -61,11 +61,47 @@ Theorem C09_wraps_match_regex : forall k a, plain_kind k = true -> forall sp pos
     /\ readable_ 0 (wrap_content k (firstn (y - x) (skipn (x - pos) s))) = firstn (y - x) (skipn (x - pos) s).
 Proof. exact cut_wraps. Qed.
 Print Assumptions C09_wraps_match_regex.
-(* an empty mark sits at the designated offset of the raw text *)
+(* an empty mark inserted by position sits at the designated offset of the MAIN text (the text nodes outside
+   annotations: what main_text=True scans in the repaired code, fixes/F102): q characters into a text node that is
+   preceded by exactly p - q characters of main text *)
 Theorem C09_mark_position : forall elem p evs evs', (0 <= p)%Z -> insert_ elem (WPos p) evs = Some evs' ->
-  exists pre post, evs' = pre ++ elem ++ post /\ raw pre = firstn (Z.to_nat p) (raw evs) /\ raw pre ++ raw post = raw evs.
+  exists pre post s q, evs = pre ++ Txt s :: post /\ evs' = pre ++ split_ins elem q s ++ post
+    /\ Z.to_nat p = length (concat (texts_main pre)) + q /\ q <= length s
+    /\ concat (texts_main pre) ++ firstn q s = firstn (Z.to_nat p) (concat (texts_main evs)).
 Proof. exact insert_pos_spec. Qed.
 Print Assumptions C09_mark_position.
+
+(* ---- content=regex (set_bookmark, set_reference_mark, insert_annotation), repaired code (fixes/F104): ONE search *)
+Theorem C09_insert_preserves_range : forall e1 e2 p spans evs evs', silent e1 -> silent e2 -> spans_wf spans = true ->
+  insert_range e1 e2 p spans evs = Some evs' -> readable_ev evs' = readable_ev evs.
+Proof. exact insert_range_readable. Qed.
+Print Assumptions C09_insert_preserves_range.
+Theorem C09_insert_range_keeps_raw : forall e1 e2 p spans evs evs', raw e1 = [] -> raw e2 = [] -> spans_wf spans = true ->
+  insert_range e1 e2 p spans evs = Some evs' -> raw evs' = raw evs.
+Proof. exact insert_range_raw. Qed.
+Print Assumptions C09_insert_range_keeps_raw.
+(* the start and end elements enclose exactly the selected match, which lies in one main text node *)
+Theorem C09_range_encloses : forall e1 e2 p spans evs evs', all_spans_ok (texts_main evs) spans = true ->
+  insert_range e1 e2 p spans evs = Some evs' ->
+  exists pre post s x y, evs = pre ++ Txt s :: post /\ x < y <= length s
+    /\ evs' = pre ++ otxt (netxt (firstn x s)) ++ e1 ++ Txt (firstn (y - x) (skipn x s)) :: e2 ++ Txt (skipn y s) :: post.
+Proof. exact insert_range_encloses. Qed.
+Print Assumptions C09_range_encloses.
+Theorem C09_nomatch_raises_range : forall e1 e2 p spans evs, Forall (fun sp => sp = []) spans -> insert_range e1 e2 p spans evs = None.
+Proof. exact insert_range_nomatch. Qed.
+Print Assumptions C09_nomatch_raises_range.
+(* F104, the pinned form: the start with before=regex, then a SECOND search with after=regex on the split text.
+   "bacc" with the pattern c$ : the oracle of the second search is that of the intermediate state "bac" | "c" *)
+Theorem C09_content_two_searches_refuted : exists e1 e2 spans1 spans2 evs evs1 evs2,
+  insert_ e1 (WRe false 0 spans1) evs = Some evs1 /\ insert_ e2 (WRe true 0 spans2) evs1 = Some evs2 /\
+  all_spans_ok (texts_main evs) spans1 = true /\ all_spans_ok (texts_main evs1) spans2 = true /\
+  text_between 1 2 evs2 <> Some [Ch 2].
+Proof.
+  exists [Open KMark 1; Close], [Open KMark 2; Close], [[(3, 4)]], [[(2, 3)]; [(0, 1)]], [Txt [Ch 1; Ch 0; Ch 2; Ch 2]].
+  eexists. eexists. split; [vm_compute; reflexivity|]. split; [vm_compute; reflexivity|].
+  split; [reflexivity|]. split; [reflexivity|]. vm_compute. discriminate.
+Qed.
+Print Assumptions C09_content_two_searches_refuted.
 
 (* ---- an address that matches nothing leaves the paragraph untouched, or raises (None) without modification *)
 Theorem C09_nomatch_noop_regex : forall k a spans evs, Forall (fun sp => sp = []) spans -> wrap_re k a spans evs = evs.
@@ -77,7 +113,7 @@ Print Assumptions C09_nomatch_noop_offset.
 Theorem C09_nomatch_raises_regex : forall elem ue p spans evs, Forall (fun sp => sp = []) spans -> insert_ elem (WRe ue p spans) evs = None.
 Proof. exact insert_nomatch. Qed.
 Print Assumptions C09_nomatch_raises_regex.
-Theorem C09_nomatch_raises_position : forall elem p evs, (Z.of_nat (length (raw evs)) < p)%Z -> insert_ elem (WPos p) evs = None.
+Theorem C09_nomatch_raises_position : forall elem p evs, (Z.of_nat (length (concat (texts_main evs))) < p)%Z -> insert_ elem (WPos p) evs = None.
 Proof. exact insert_beyond. Qed.
 Print Assumptions C09_nomatch_raises_position.
 
@@ -93,6 +129,28 @@ Theorem C09_strip_keeps : forall sp pr n n', strip_ok sp pr false n = true -> st
   raw (content n') = raw (content n) /\ tail_of n' = tail_of n.
 Proof. exact strip_top_raw. Qed.
 Print Assumptions C09_strip_keeps.
+
+(* the guard is exact, and without it only the multiplicity of consecutive spaces is lost: the result is never longer,
+   and equal to the original after runs of spaces are squeezed ([collapse] = re.sub(" +", " ", ·)) *)
+Theorem C09_strip_guard_exact : forall sp pr n n', strip_top collapse sp pr n = Some n' ->
+  (raw (content n') = raw (content n) <-> strip_ok sp pr false n = true)
+  /\ collapse (raw (flat n')) = collapse (raw (flat n)) /\ length (raw (content n')) <= length (raw (content n)).
+Proof. exact strip_top_exact. Qed.
+Print Assumptions C09_strip_guard_exact.
+
+(* strip_tags on an element that is itself stripped (Span.remove_spans(), repaired code fixes/F105): all the characters of
+   the element, its own tail included, are in the returned paragraph — under the same guard *)
+Theorem C09_strip_default_keeps : forall a0 sp pr n n', sp (kind_of n) (match n with Node _ _ s _ _ _ => s end) = true ->
+  strip_ok sp pr false n = true -> fold_ok (fst (strip_ collapse sp pr false n)) (None, []) = true ->
+  strip_default collapse a0 sp pr n = Some n' -> raw (content n') = raw (flat n).
+Proof. exact strip_default_raw. Qed.
+Print Assumptions C09_strip_default_keeps.
+Definition F105_witness : node :=      (* <text:span>a<text:span>b</text:span>c</text:span> *)
+  Node KSpan 1 false (Some [Ch 0]) [Node KSpan 2 false (Some [Ch 1]) [] (Some [Ch 2])] None.
+Theorem C09_strip_default_pinned_refuted : exists n n',
+  strip_default_pinned 9 (fun k _ => kind_eqb k KSpan) (fun _ => false) n = Some n' /\ raw (content n') <> raw (flat n).
+Proof. exists F105_witness. eexists. split; [vm_compute; reflexivity|vm_compute; discriminate]. Qed.
+Print Assumptions C09_strip_default_pinned_refuted.
 
 (* ---- refuted on the code as it is: F16 (known finding), and the negative-offset arithmetic of the pinned code (F101, repaired) *)
 Definition F16_witness : node :=       (* <text:p>a <text:span> b</text:span></text:p> *)
@@ -115,6 +173,19 @@ Proof.
   intros [_ [H _]]. destruct C09_strip_unguarded_refuted as [n [n' [E D]]]. apply D. eapply H. exact E.
 Qed.
 Print Assumptions C09_full_refuted.
+
+(* ---- the two views of the model are interchangeable: [flat] and [parse] are inverse bijections between the trees
+        without argument marks and the event lists that [parse] accepts (one element, well bracketed, never two
+        adjacent text nodes) *)
+Theorem C09_tree_eventlist_bijection :
+  (forall n, nosel n = true -> parse (flat n) = Some n) /\
+  (forall evs n, parse evs = Some n -> flat n = evs /\ nosel n = true).
+Proof. split; [exact parse_flat|exact flat_parse]. Qed.
+Print Assumptions C09_tree_eventlist_bijection.
+Theorem C09_content_parses_back : forall n, nosel n = true ->
+  parse_content (content n) = Some (match n with Node _ _ _ tx ks _ => (tx, ks) end).
+Proof. exact parse_content_flat. Qed.
+Print Assumptions C09_content_parses_back.
 
 (* ---- the hypotheses are inhabited by non-trivial values *)
 Example C09_example_history :   (* "ab cd": span on [1,3) = "b " (the space becomes text:s), bookmark at raw offset 4 (the
